@@ -321,7 +321,7 @@ def run(r):
     proof_ok = runner.proof_stage(r)
     h1, _ = core.build_harness()
     rnd = random.Random(r.seed)
-    n = int(os.environ.get("VERIF_CASES", 180 if quick else 6000))
+    n = int(os.environ.get("VERIF_CASES", 400 if quick else 6000))
 
     def explore(specs, name):
         # pass 1: classes for the word cases come from Rust itself
@@ -366,7 +366,7 @@ def run(r):
         corr = [x for x in results if (x[2] & 1) and not (x[2] & 2)]
 
     # exploration beyond the model
-    na, indexed, abad = explore_analysis(r, h1, rnd, 40 if quick else 1500)
+    na, indexed, abad = explore_analysis(r, h1, rnd, 120 if quick else 1500)
     nreq, lbad, lerr = explore_lsp(r, rnd, 4 if quick else 60)
     if lerr:
         r.notes.append("LSP exploration skipped: " + lerr)
